@@ -526,9 +526,11 @@ example : (run {} (.sequence [.mapping [(.str "a", 3), (.str "b", 1)] false, .ma
     = some ⟨[[3, 1], [3, 1]], 2, .int8, [.str "a", .str "b"], false⟩ := by decide +kernel
 example : (run {} (.iterator [.tuple ⟨.py .int64, .d1 [3, 1]⟩ [.str "a", .str "b"], .sampleset [.str "b", .str "a"] [[1, 3]] .int32])).toOption
     = some ⟨[[3, 1], [3, 1]], 2, .int32, [.str "a", .str "b"], false⟩ := by decide +kernel
-/-- the smallest integer type: `-128` needs `int16` (the code compares `-min` with `iinfo.max`), `-2^63` fits no candidate -/
+/-- the smallest integer type: `-128` needs `int16` (the code compares `-min` with `iinfo.max`); `-2^63` fits no candidate and
+    stays the int64 it already is (repair ecd6256: `except StopIteration: if arr.dtype != np.int64: raise ...; dtype = np.int64`) -/
 example : (run {} (.array ⟨.py .int64, .d1 [-128, 5]⟩)).toOption.map (·.dtype) = some .int16 := by decide +kernel
-example : errOf (run {} (.array ⟨.py .int64, .d1 [-9223372036854775808]⟩)) = some .value := by decide +kernel
+example : (run {} (.array ⟨.py .int64, .d1 [-9223372036854775808]⟩)).toOption.map (fun o => (o.dtype, o.rows))
+    = some (.int64, [[-9223372036854775808]]) := by decide +kernel
 /-- refusals: a repeated label under `labels_type=Variables`, rows over different variables, `(iterator, labels)` -/
 example : errOf (run { labelsVariables := true } (.tuple ⟨.py .int64, .d1 [1, 2]⟩ [.str "a", .str "a"])) = some .value := by decide +kernel
 example : errOf (run {} (.iterator [.mapping [(.str "a", 1)] false, .mapping [(.str "b", 1)] false])) = some .value := by decide +kernel
